@@ -5,17 +5,17 @@ import (
 
 	"github.com/DataDog/datadog-traceroute/common"
 	V "github.com/DataDog/datadog-traceroute/zzverif"
+	N "github.com/DataDog/datadog-traceroute/zzvnet"
 )
 
 // Verif_Step_icmp4_arb: one real ReceiveProbe over an arbitrary L-byte IPv4 packet after the real
 // SendProbe calls. Decides C01 (attribution), C04 (destination marking) and C09 (no abort) for ICMP/IPv4.
 func Verif_Step_icmp4_arb() {
 	L := V.ParamInt("L", 56)
-	maxIHL := V.ParamInt("maxIHL", 5)
 	d, sink, src, _, target, min, m := vSetup(false)
 	P := V.Bytes("P", L)
-	vBoundArb4(P, maxIHL)
-	src.next = append([]byte(nil), P...)
+	N.BoundArb4(P)
+	src.Next = append([]byte(nil), P...)
 	resp, err := d.ReceiveProbe(100 * time.Millisecond)
 	if err != nil {
 		V.Reach("rejected")
@@ -33,10 +33,66 @@ func Verif_Step_icmp4_arb() {
 	if L >= ihl*4+8+1 {
 		qihl = V.Concretize(int(P[ihl*4+8] & 0xf))
 	}
-	pr := sink.pkts[V.Concretize(int(ttl-min))]
+	pr := sink.Pkts[V.Concretize(int(ttl-min))]
 	V.Assert(vGenuine4(P, ihl, qihl, pr), "C01/genuine")
-	V.Assert(resp.IP == vOuterSrc4(P), "C01/responder")
+	V.Assert(resp.IP == N.Src4(P), "C01/responder")
 	V.Assert(resp.IsDest == vDestForm4(P, ihl, target), "C04/dest-iff-proof")
+	V.Assert(resp.RTT >= 0, "C05/rtt-nonneg")
+	if resp.IsDest {
+		V.Reach("accepted-dest")
+	} else {
+		V.Reach("accepted-hop")
+	}
+}
+
+// ---- IPv6 ----
+
+// vGenuine6: P (IPv6, no extension headers) genuinely answers probe pr: time-exceeded (type 3) quoting pr's
+// addresses, echo identifier and full 16-bit sequence, or an echo reply (type 129) carrying them from pr's destination.
+func vGenuine6(p []byte, pr []byte) bool {
+	if len(p) < 48 {
+		return false
+	}
+	is6 := V.All(p[0]>>4 == 6, p[6] == 58)
+	reply := V.All(is6, p[40] == 129, V.BytesEq(p[44:48], pr[44:48]), V.BytesEq(p[8:24], pr[24:40]))
+	if len(p) < 96 {
+		return reply
+	}
+	q := p[48:]
+	te := V.All(is6, p[40] == 3, V.BytesEq(q[8:24], pr[8:24]), V.BytesEq(q[24:40], pr[24:40]), V.BytesEq(q[44:48], pr[44:48]))
+	return V.Any(reply, te)
+}
+
+func vDestForm6(p []byte, target [16]byte) bool {
+	if len(p) < 48 {
+		return false
+	}
+	return V.All(p[6] == 58, p[40] == 129, V.BytesEq(p[8:24], target[:]))
+}
+
+// Verif_Step_icmp6_arb: as Verif_Step_icmp4_arb for ICMP over IPv6.
+func Verif_Step_icmp6_arb() {
+	L := V.ParamInt("L", 96)
+	d, sink, src, _, target, min, m := vSetup(true)
+	P := V.Bytes("P", L)
+	N.BoundArb6(P)
+	src.Next = append([]byte(nil), P...)
+	resp, err := d.ReceiveProbe(100 * time.Millisecond)
+	if err != nil {
+		V.Reach("rejected")
+		V.Assert(common.CheckProbeRetryable("ReceiveProbe", err), "C09/retryable")
+		V.Assert(resp == nil, "C09/no-result-with-error")
+		return
+	}
+	V.Reach("accepted")
+	V.Assert(resp != nil, "C09/non-nil")
+	ttl := resp.TTL
+	V.Assert(V.All(ttl >= min, ttl <= m), "C01/ttl-was-sent")
+	V.Assume(V.All(ttl >= min, ttl <= m))
+	pr := sink.Pkts[V.Concretize(int(ttl-min))]
+	V.Assert(vGenuine6(P, pr), "C01/genuine")
+	V.Assert(resp.IP == N.Src6(P), "C01/responder")
+	V.Assert(resp.IsDest == vDestForm6(P, target.As16()), "C04/dest-iff-proof")
 	V.Assert(resp.RTT >= 0, "C05/rtt-nonneg")
 	if resp.IsDest {
 		V.Reach("accepted-dest")
